@@ -51,10 +51,21 @@ def gen(rng, tier, ctx):
     for _ in range(30 if tier == "thorough" else 4):
         n = rng.choice((4, 5))
         cases.append((rng.choice((0, 1)), n, [rng.randrange(n) for _ in range(8)]))
-    return cases
+    # the same schedules with some of the processes creating their session the way androguard.misc does (get_default_session() on
+    # ./androguard.db); every second case
+    out = []
+    for k, c in enumerate(cases):
+        out.append(c)
+        if k % 2 == 0:
+            n = c[1]
+            modes = [rng.random() < 0.5 for _ in range(n)]
+            if not any(modes):
+                modes[rng.randrange(n)] = True
+            out.append((c[0], n, c[2], modes))
+    return out
 
 
-def _worker(idx, db_url, to_parent, from_parent, gated):
+def _worker(idx, db_url, to_parent, from_parent, gated, default=False):
     """Runs in a forked child: Session(db_url) with every dataset.Table operation on 'session' waiting for the parent."""
     import threading
     try:
@@ -80,7 +91,15 @@ def _worker(idx, db_url, to_parent, from_parent, gated):
         if not gated:
             from_parent.recv()                      # start signal: everybody constructs at the same moment
         from androguard.session import Session
-        s = Session(db_url=db_url)
+        if default:
+            # the way androguard.misc creates its session: get_default_session() in the directory that holds androguard.db
+            os.chdir(os.path.dirname(db_url[len("sqlite:///"):]))
+            from androguard.core import androconf
+            from androguard.misc import get_default_session
+            androconf.CONF["SESSION"] = None
+            s = get_default_session()
+        else:
+            s = Session(db_url=db_url)
         to_parent.send(("end", idx, "ok", s.session_id))
     except BaseException as e:  # noqa
         to_parent.send(("end", idx, "error", "%s: %s" % (type(e).__name__, str(e)[:120])))
@@ -110,14 +129,16 @@ def impl(case):
 def _impl_once(case):
     import multiprocessing as mp
     import androguard.session  # noqa: imported before forking
-    pre, n, sched = case
+    import androguard.misc  # noqa
+    pre, n, sched = case[:3]
+    modes = case[3] if len(case) > 3 else [False] * n        # which of the n processes go through get_default_session()
     ctx = mp.get_context("fork")
     top = tempfile.mkdtemp(prefix="c36-", dir=os.environ.get("VERIF_TMP", "/var/tmp"))
-    path = os.path.join(top, "s.db")
+    path = os.path.join(top, "androguard.db")
     db_url = "sqlite:///" + path
     total = pre + n
     try:
-        pipes, procs = [], []
+        pipes, procs = {}, {}
         results = {}
         ops = {i: [] for i in range(total)}
         waiting = {}
@@ -125,10 +146,10 @@ def _impl_once(case):
         def start(i):
             a, b = ctx.Pipe()
             c, d = ctx.Pipe()
-            p = ctx.Process(target=_worker, args=(i, db_url, b, c, True))
+            p = ctx.Process(target=_worker, args=(i, db_url, b, c, True, i >= pre and modes[i - pre]))
             p.start()
-            pipes.append((a, d))
-            procs.append(p)
+            pipes[i] = (a, d)
+            procs[i] = p
 
         def pump(i, want_kind, timeout=60):
             """read messages of process i until one of kind want_kind (or its end) arrives"""
@@ -151,6 +172,8 @@ def _impl_once(case):
             """let process i perform its next database operation; False when it has finished"""
             if i in results:
                 return False
+            if i not in pipes:
+                start(i)
             if i not in waiting:
                 if pump(i, "want") == "end":
                     return False
@@ -162,8 +185,8 @@ def _impl_once(case):
             start(i)
             while release(i):
                 pass
-        for i in range(pre, total):
-            start(i)
+        # a process begins (is forked and runs its constructor up to its first operation on the table) when the schedule
+        # first lets it act: whatever a constructor does before that operation then happens at that point of the schedule
         for k in sched:
             release(pre + k)
         for i in range(pre, total):
@@ -172,7 +195,7 @@ def _impl_once(case):
         for i in range(total):
             if i not in results:
                 pump(i, "end")
-        for p in procs:
+        for p in procs.values():
             p.join(20)
             if p.is_alive():
                 p.terminate()
@@ -189,7 +212,7 @@ def canon(res):
 
 
 def coq_input(case):
-    pre, n, sched = case
+    pre, n, sched = case[:3]
     full = list(range(pre)) + [pre + k for k in sched]
     return "(%d%%nat, [%s])" % (pre + n, "; ".join("%d%%nat" % k for k in full))
 
@@ -210,7 +233,9 @@ def oracle(case, res):
 
 def stats(cases, results):
     d = {"replays": len(cases), "processes": 0}
-    for (pre, n, sched), r in zip(cases, results):
+    for c, r in zip(cases, results):
+        pre, n, sched = c[:3]
+        d["through_get_default_session"] = d.get("through_get_default_session", 0) + (sum(c[3]) if len(c) > 3 else 0)
         d["processes"] += pre + n
         d["n=%d" % n] = d.get("n=%d" % n, 0) + 1
         if not isinstance(r, Err):
@@ -227,6 +252,8 @@ def gen_free(rng, tier, ctx):
     # a slow peer: another connection holds the write lock of the database for a good half second while the sessions are created
     # (a session creator whose commit is slow); the others have to wait for it, not fail
     cases += [(pre, n, hold) for pre in (0, 1) for n in (1, 2, 3) for hold in ((0.7,) if tier != "thorough" else (0.3, 0.7, 1.5))]
+    # some or all of the processes creating their session through androguard.misc.get_default_session()
+    cases += [(pre, n, 0, k) for pre in (0, 1) for n in ((2, 4) if tier != "thorough" else (2, 3, 4, 8)) for k in sorted({1, n // 2, n})]
     return cases
 
 
@@ -244,11 +271,13 @@ def impl_free(case):
 def _impl_free_once(case):
     import multiprocessing as mp
     import androguard.session  # noqa
+    import androguard.misc  # noqa
     pre, n = case[:2]
     hold = case[2] if len(case) > 2 else 0
+    ndef = case[3] if len(case) > 3 else 0          # the last ndef processes go through get_default_session()
     ctx = mp.get_context("fork")
     top = tempfile.mkdtemp(prefix="c36f-", dir=os.environ.get("VERIF_TMP", "/var/tmp"))
-    path = os.path.join(top, "s.db")
+    path = os.path.join(top, "androguard.db")
     db_url = "sqlite:///" + path
     try:
         res = {}
@@ -257,7 +286,7 @@ def _impl_free_once(case):
         for i in range(pre + n):
             a, b = ctx.Pipe()
             c, d = ctx.Pipe()
-            p = ctx.Process(target=_worker, args=(i, db_url, b, c, False))
+            p = ctx.Process(target=_worker, args=(i, db_url, b, c, False, i >= pre + n - ndef))
             p.start()
             chans.append((a, d))
             procs.append(p)
@@ -302,3 +331,136 @@ STREAMS = [
      "model_vo": "Session/SessionModel.vo", "pinned": False, "oracle": oracle, "stats": stats, "case_timeout": 300},
     {"name": "free-running", "gen": gen_free, "impl": impl_free, "oracle": oracle_free, "case_timeout": 300},
 ]
+
+
+# ---- stream 3: schedules at the level of single SQL statements (no model: the model's step is a whole table operation) ------------
+def _worker_stmt(idx, db_url, to_parent, from_parent, default):
+    """Session() in a forked child; every SQL statement any of its connections executes waits for the parent first"""
+    try:
+        from sqlalchemy import event
+        from sqlalchemy.engine import Engine
+
+        @event.listens_for(Engine, "before_cursor_execute")
+        def _gate(conn, cursor, statement, parameters, context, executemany):
+            to_parent.send(("want", idx, statement[:30]))
+            from_parent.recv()
+        from_parent.recv()                                   # the process begins when the schedule first lets it act
+        from androguard.session import Session
+        if default:
+            os.chdir(os.path.dirname(db_url[len("sqlite:///"):]))
+            from androguard.core import androconf
+            from androguard.misc import get_default_session
+            androconf.CONF["SESSION"] = None
+            s = get_default_session()
+        else:
+            s = Session(db_url=db_url)
+        to_parent.send(("end", idx, "ok", s.session_id))
+    except BaseException as e:  # noqa
+        to_parent.send(("end", idx, "error", "%s: %s" % (type(e).__name__, str(e)[:120])))
+
+
+def gen_stmt(rng, tier, ctx):
+    """case = (pre, n, schedule, which processes go through get_default_session())"""
+    cases = []
+    for _ in range(120 if tier == "thorough" else 16):
+        n = rng.choice((2, 2, 3))
+        sched = [rng.randrange(n) for _ in range(rng.choice((6, 12, 20)))]
+        if rng.random() < 0.5:                       # one process far ahead of the other: it has opened the database and read, no more
+            k = rng.randrange(n)
+            sched = [k] * rng.randint(1, 8) + sched
+        # the last element: the database was last closed cleanly (its write-ahead log checkpointed and removed), as after a session
+        # of the sqlite3 shell - the processes that created the earlier sessions exit without closing their connections
+        cases.append((rng.choice((0, 1, 1)), n, sched, [rng.random() < 0.5 for _ in range(n)], rng.random() < 0.5))
+    # one process has done everything but its INSERT when the next begins (14 statements to a constructor)
+    for head in (13, 14, 15):
+        for modes in ([False, True], [True, True], [True, False]):
+            cases.append((1, 2, [0] * head + [1] * 20, modes, True))
+    return cases
+
+
+def impl_stmt(case):
+    for attempt in range(4):
+        r = _impl_stmt_once(case)
+        if not any("database is locked" in str(x) for x in r[3]):
+            return r
+    return r
+
+
+def _impl_stmt_once(case):
+    import multiprocessing as mp
+    import time
+    import androguard.session  # noqa
+    import androguard.misc  # noqa
+    pre, n, sched, modes = case[:4]
+    clean = len(case) > 4 and case[4]
+    ctx = mp.get_context("fork")
+    top = tempfile.mkdtemp(prefix="c36s-", dir=os.environ.get("VERIF_TMP", "/var/tmp"))
+    path = os.path.join(top, "androguard.db")
+    db_url = "sqlite:///" + path
+    total = pre + n
+    try:
+        chans, procs, results, wants, nstmt = {}, {}, {}, {}, {}
+
+        def start(i):
+            a, b = ctx.Pipe()
+            c, d = ctx.Pipe()
+            p = ctx.Process(target=_worker_stmt, args=(i, db_url, b, c, i >= pre and modes[i - pre]))
+            p.start()
+            chans[i], procs[i] = (a, d), p
+            wants[i] = True                              # it waits for its start signal
+
+        def drain(i, wait):
+            """take what process i has sent; True when it is waiting for the parent"""
+            a = chans[i][0]
+            while i not in results and not wants.get(i) and a.poll(wait):
+                m = a.recv()
+                if m[0] == "want":
+                    wants[i] = True
+                    nstmt[i] = nstmt.get(i, 0) + 1
+                else:
+                    results[i] = (m[2], m[3])
+                wait = 0
+            return bool(wants.get(i)) and i not in results
+
+        def step(i, wait):
+            """let process i execute its next statement if it is waiting for the parent (a process blocked by a lock of another is not)"""
+            if i not in chans:
+                start(i)
+            if drain(i, wait):
+                wants[i] = False
+                chans[i][1].send("go")
+        for i in range(pre):
+            start(i)
+            t0 = time.time()
+            while i not in results and time.time() - t0 < 60:
+                step(i, 0.5)
+        if clean and pre:
+            import sqlite3
+            for i in range(pre):
+                procs[i].join(20)
+            con = sqlite3.connect(path)
+            con.execute("select count(*) from session").fetchall()
+            con.close()
+        for k in sched:
+            step(pre + k, 0.3)
+        t0 = time.time()
+        while len(results) < total and time.time() - t0 < 90:
+            for i in range(pre, total):
+                if i not in results:
+                    step(i, 0.05)
+        for i in range(total):
+            results.setdefault(i, ("error", "timeout"))
+        for p in procs.values():
+            p.join(5)
+            if p.is_alive():
+                p.terminate()
+        status = [[1 if results[i][0] == "ok" else 2, results[i][1] if results[i][0] == "ok" else None] for i in range(total)]
+        return [status, _rows(path), [nstmt.get(i, 0) for i in range(total)], [results[i][1] for i in range(total) if results[i][0] != "ok"]]
+    finally:
+        shutil.rmtree(top, ignore_errors=True)
+
+
+STREAMS.append({"name": "statement-schedules", "gen": gen_stmt, "impl": impl_stmt, "oracle": oracle, "case_timeout": 400,
+                "stats": lambda cases, results: {"replays": len(cases), "processes": sum(c[0] + c[1] for c in cases),
+                                                  "through_get_default_session": sum(sum(c[3]) for c in cases), "database_closed_cleanly_before": sum(1 for c in cases if len(c) > 4 and c[4] and c[0]),
+                                                  "statements_gated": sum(sum(r[2]) for r in results if not isinstance(r, Err))}})
